@@ -45,6 +45,32 @@ func genC21(g *Gen) {
 	for b := 0; b < 256; b++ {
 		emit([]byte{byte(b)}, c21Counts[b%len(c21Counts)])
 	}
+	// routing batches: every key of a batch must be hashed on its own (repeats, leaderless slots)
+	for i := 0; i < g.N/20+40; i++ {
+		count := c21Counts[g.R.Intn(9)]
+		if g.R.Chance(50) {
+			count = g.R.Range(1, 64)
+		}
+		dead := g.R.Intn(16)
+		nk := g.R.Range(1, 6)
+		var ks []string
+		var prev []byte
+		for j := 0; j < nk; j++ {
+			var k []byte
+			if j > 0 && g.R.Chance(45) {
+				k = prev
+				g.Count("rt:adjacent-repeat")
+			} else {
+				k = g.R.Bytes(g.R.Range(1, 6))
+			}
+			prev = k
+			ks = append(ks, Hex(k))
+		}
+		if dead != 0 {
+			g.Count("rt:some-slot-leaderless")
+		}
+		g.Op("rt", "%d %d %s", count, dead, strings.Join(ks, " "))
+	}
 	for i := 0; i < g.N; i++ {
 		var key []byte
 		switch g.R.Pick(2, 4, 3, 1) {
@@ -77,6 +103,9 @@ func (c21Runner) Close() {}
 
 func (c21Runner) Step(op string) string {
 	f := strings.Fields(op)
+	if len(f) >= 4 && f[0] == "rt" {
+		return c21Route(f[1:])
+	}
 	if len(f) != 3 || f[0] != "hs" {
 		return "bad-op"
 	}
@@ -93,4 +122,75 @@ func (c21Runner) Step(op string) string {
 		cluster.VerifNodeWithHashSlotCount(count).HashSlotForKey(key),
 		routing.VerifChecksumIEEEString(key),
 		crc32.ChecksumIEEE([]byte(key)))
+}
+
+// c21Route: `rt <count> <deadmask> <hexkey>...` — 4 logical slots, hash slot h belongs to slot h%4+1,
+// slot s is leaderless iff bit s-1 of deadmask is set. Output: four ';'-separated lists (one entry per
+// key: the hash slot the call routed the key to, or `e` for a key-specific error) for
+// Table.RouteAuthoritiesPartial, Router.RouteAuthoritiesPartial, Router.RouteKeysPartial, and
+// Table.RouteAuthorities (all-or-nothing: `E` if the batch failed).
+func c21Route(f []string) string {
+	c, err1 := strconv.Atoi(f[0])
+	dead, err2 := strconv.Atoi(f[1])
+	if err1 != nil || err2 != nil || c < 1 || c > 65535 || dead < 0 || dead > 15 {
+		return "bad-op"
+	}
+	t := &routing.Table{Revision: 1, HashSlotCount: uint16(c), HashToSlot: make([]uint32, c),
+		SlotLeaders: map[uint32]uint64{}, SlotLeaderTerms: map[uint32]uint64{}, SlotConfigEpochs: map[uint32]uint64{},
+		SlotPreferredLeaders: map[uint32]uint64{}, SlotPeers: map[uint32][]uint64{}}
+	for h := 0; h < c; h++ {
+		t.HashToSlot[h] = uint32(h%4 + 1)
+	}
+	for s := uint32(1); s <= 4; s++ {
+		if dead&(1<<(s-1)) == 0 {
+			t.SlotLeaders[s] = uint64(s)
+		}
+	}
+	keys := make([]string, 0, len(f)-2)
+	for _, h := range f[2:] {
+		keys = append(keys, string(UnHex(h)))
+	}
+	var out []string
+	tp, _ := t.RouteAuthoritiesPartial(keys)
+	var a []string
+	for _, r := range tp {
+		if r.Err != nil {
+			a = append(a, "e")
+		} else {
+			a = append(a, strconv.Itoa(int(r.Authority.HashSlot)))
+		}
+	}
+	out = append(out, strings.Join(a, ","))
+	r := routing.VerifRouterWithTable(t)
+	rp, _ := r.RouteAuthoritiesPartial(keys)
+	a = nil
+	for _, x := range rp {
+		if x.Err != nil {
+			a = append(a, "e")
+		} else {
+			a = append(a, strconv.Itoa(int(x.Authority.HashSlot)))
+		}
+	}
+	out = append(out, strings.Join(a, ","))
+	kp, _ := r.RouteKeysPartial(keys)
+	a = nil
+	for _, x := range kp {
+		if x.Err != nil {
+			a = append(a, "e")
+		} else {
+			a = append(a, strconv.Itoa(int(x.Route.HashSlot)))
+		}
+	}
+	out = append(out, strings.Join(a, ","))
+	all, err := t.RouteAuthorities(keys)
+	if err != nil {
+		out = append(out, "E")
+	} else {
+		a = nil
+		for _, x := range all {
+			a = append(a, strconv.Itoa(int(x.HashSlot)))
+		}
+		out = append(out, strings.Join(a, ","))
+	}
+	return strings.Join(out, ";")
 }
